@@ -263,7 +263,7 @@ def run_probes(chk: core.Check, work: str, failures: typing.List[dict], stats: d
                 stats['known_finding_instances'] = stats.get('known_finding_instances', 0) + len(pastc)
             else:
                 failures.append({'kind': 'probe', 'what': 'any_bitspan::subspan() forms a pointer beyond one past the end of the buffer '
-                                 '(model: c04_cpp_des_ptr_in_bounds_refuted)', 'reproduced': pastc, 'files': c04_probe.CPP_FILES, 'found_input': True})
+                                 '(model: c04_cpp_des_ptr_in_bounds no longer holds; History/C04_history.cpp_des_ptr_in_bounds_refuted)', 'reproduced': pastc, 'files': c04_probe.CPP_FILES, 'found_input': True})
     stats['probe_observations'] = obs
 
 
